@@ -12,7 +12,9 @@
      strict_all        the tree induction (the shape of CompWarmContInv.cont_all);
      D2_strict         k7s_shape a = false -> verdict 0, any two histories, no hypothesis on
                        the contents (names need not determine contents);
-     D1_strict         verdict 0, or inside the widened class 57 / 15 / 16. *)
+     D1_strict         verdict 0, or inside the widened class 57 / 15 / 16;
+     k7c_shape, D2_strict_c, D1_strict_c   the same class and theorems in the vocabulary of
+                       Checkers/ChkHist.v (cold streams of the wrapped source, no `uncache`). *)
 From RS Require Import Base.Prelude Base.Text Rope.RopeModel Codec.Vlq Codec.CodecSpec
   Stream.Types Stream.Leaves Stream.Concat Stream.Replace Stream.Combined Stream.Tree
   Api.ApiTree Sem.Attr Sem.HashEq Api.ApiHist Checkers.ChkTree Checkers.ChkHist Checkers.ChkCombined
@@ -412,9 +414,117 @@ Proof.
   - left. apply D2_strict; assumption.
 Qed.
 
+(* ------------------------------------------------------------------ *)
+(* the widened class in the checker's own vocabulary                    *)
+(* ------------------------------------------------------------------ *)
+(* k7s_shape reads the attribution off the cache-free tree (refA: uncache).  The same class
+   written with what Checkers/ChkHist.v has at hand - the cold streams of the wrapped source
+   itself - so that it can replace `announces_unmapped` in `k7_shape` as it stands: *)
+Definition cold_events (inner : src) (c : bool) : list event := fst (fst (stream [] inner (mkOpts c false))).
+
+Definition attributes_nothing (inner : src) (c : bool) : bool :=
+  forallb (fun a => match a with None => true | Some _ => false end) (attr_of_stream (cold_events inner c) c).
+
+Fixpoint content_gap (l : list (text * option text)) : bool :=
+  match l with
+  | [] => false
+  | (_, None) :: r => existsb (fun p => match snd p with Some _ => true | None => false end) r || content_gap r
+  | _ :: r => content_gap r
+  end.
+
+Definition announces_history_dependent (inner : src) : bool :=
+  let anns := contents_of_events (cold_events inner true) in
+  (negb (is_nil anns) && (attributes_nothing inner true || attributes_nothing inner false)) || content_gap anns.
+
+Fixpoint k7c_shape (s : src) : bool :=
+  match s with
+  | SCached _ inner => announces_history_dependent inner || k7c_shape inner
+  | SConcat cs => existsb k7c_shape cs
+  | SReplace inner _ => k7c_shape inner
+  | _ => false
+  end.
+
+Lemma content_gap_same l : content_gap l = none_then_some l.
+Proof. induction l as [|[n [x|]] l IH]; cbn [content_gap none_then_some]; [reflexivity|exact IH|rewrite IH; reflexivity]. Qed.
+
+Lemma history_dependent_same (inner : src) : ColdCache.ids_distinct inner ->
+  announces_history_dependent inner = announces_unattributed inner || announces_padded inner.
+Proof.
+  intros Hd. unfold announces_history_dependent, announces_unattributed, announces_padded, attributes_nothing,
+    cold_anns, cold_events, refA, ref_evs, all_none.
+  rewrite content_gap_same, !(fresh_stream_uncache inner _ Hd). reflexivity.
+Qed.
+
+Theorem k7c_k7s : forall s, ColdCache.ids_distinct s -> k7c_shape s = k7s_shape s.
+Proof.
+  apply (src_ind' (fun s => ColdCache.ids_distinct s -> k7c_shape s = k7s_shape s)); try reflexivity.
+  - intros cs IH Hd. cbn [k7c_shape k7s_shape]. induction IH as [|c cs Hc _ IHl]; [reflexivity|].
+    destruct (distinct_concat_head _ _ Hd) as [H1 H2]. cbn [existsb]. rewrite (Hc H1), (IHl H2). reflexivity.
+  - intros i rs IH Hd. apply IH. exact Hd.
+  - intros id i IH Hd. pose proof (distinct_cached _ _ Hd) as Hd'. cbn [k7c_shape k7s_shape].
+    rewrite (history_dependent_same i Hd'), (IH Hd'). reflexivity.
+Qed.
+
+(* it is a widening of the K7 class: a stream without mapped chunk attributes nothing *)
+Lemma unmapped_cover : forall evs srcs names, mapped_chunk_exists evs = false ->
+  forallb (fun a : attr => match a with None => true | Some _ => false end)
+          (attr_cover (rsegs_of_events evs srcs names)) = true.
+Proof.
+  unfold mapped_chunk_exists. induction evs as [|e evs IH]; intros srcs names H; [reflexivity|].
+  destruct e as [t mp|i n c|i n]; cbn [rsegs_of_events chunk_mappings existsb] in *.
+  - apply orb_false_iff in H. destruct H as [H1 H2]. destruct (m_orig mp); [discriminate|].
+    destruct t as [t|]; cbn [attr_cover]; [|apply IH; exact H2].
+    rewrite forallb_app, (IH _ _ H2), andb_true_r. clear. induction t as [|x t IHt]; [reflexivity|exact IHt].
+  - apply IH. exact H.
+  - apply IH. exact H.
+Qed.
+
+Lemma unmapped_history_dependent (inner : src) :
+  announces_unmapped inner = true -> announces_history_dependent inner = true.
+Proof.
+  unfold announces_unmapped, announces_history_dependent, attributes_nothing, cold_events.
+  intros H. apply andb_true_iff in H. destruct H as [H1 H2]. apply negb_true_iff in H2.
+  unfold attr_of_stream. cbv beta iota zeta.
+  apply orb_true_iff. left. apply andb_true_iff. split; [exact H1|].
+  apply orb_true_iff. left. exact (unmapped_cover _ [] [] H2).
+Qed.
+
+Theorem k7_k7c : forall s, k7_shape s = true -> k7c_shape s = true.
+Proof.
+  apply (src_ind' (fun s => k7_shape s = true -> k7c_shape s = true)); try (intros; discriminate).
+  - intros cs IH H. cbn [k7_shape k7c_shape] in *. apply existsb_exists in H. destruct H as [c [Hc Hk]].
+    apply existsb_exists. exists c. split; [exact Hc|]. rewrite Forall_forall in IH. apply (IH c Hc Hk).
+  - intros i rs IH H. apply IH. exact H.
+  - intros id i IH H. cbn [k7_shape k7c_shape] in *. apply orb_true_iff in H. destruct H as [H|H].
+    + rewrite (unmapped_history_dependent i H). reflexivity.
+    + rewrite (IH H). apply orb_true_r.
+Qed.
+
+Theorem D2_strict_c (a b : src) (opsa opsb : list hop) :
+  src_eqb a b = true -> ColdCache.ids_distinct a -> ColdCache.ids_distinct b -> cls a -> cls b ->
+  k7c_shape a = false ->
+  chk_C14_pair a b (api_pair a opsa b opsb) = 0.
+Proof.
+  intros He Hda Hdb Hca Hcb Hk. apply D2_strict; try assumption. rewrite <- (k7c_k7s a Hda). exact Hk.
+Qed.
+
+Theorem D1_strict_c (a b : src) (opsa opsb : list hop) :
+  src_eqb a b = true -> ColdCache.ids_distinct a -> ColdCache.ids_distinct b -> cls a -> cls b ->
+  let v := chk_C14_pair a b (api_pair a opsa b opsb) in
+  v = 0 \/ (k7c_shape a = true /\ k7c_shape b = true /\ (v = 57 \/ v = 15 \/ v = 16)).
+Proof.
+  intros He Hda Hdb Hca Hcb. cbn zeta.
+  destruct (D1_strict a b opsa opsb He Hda Hdb Hca Hcb) as [H|[K H]]; [left; exact H|right].
+  rewrite (k7c_k7s a Hda), (k7c_k7s b Hdb), <- (eq_k7s a b He Hda Hdb). split; [exact K|]. split; [exact K|exact H].
+Qed.
+
 Print Assumptions strict_all.
 Print Assumptions anns_history_independent.
 Print Assumptions eq_k7s.
 Print Assumptions contents_agree_tabs.
 Print Assumptions D2_strict.
 Print Assumptions D1_strict.
+Print Assumptions k7c_k7s.
+Print Assumptions k7_k7c.
+Print Assumptions D2_strict_c.
+Print Assumptions D1_strict_c.
